@@ -143,45 +143,45 @@ def parameters (f : Feedback α) : Except Err Nat :=
     | .error e, _ => .error e
     | _, .error e => .error e) (.ok 0)
 
+/-- the input position `pos` of the unrolled block processes: the previous output, combined with the
+    skip sources registered for that position -/
+def skipped (f : Feedback α) (act : List (Tensor α)) (pos : Nat) (x0 : Tensor α) : Except Err (Tensor α) :=
+  match Assoc.find? f.connect pos with
+  | none => .ok x0
+  | some srcs =>
+    match L.mapM' (fun i => L.get act i) srcs with
+    | .error e => .error e
+    | .ok ys => accumulateMany f.accumulation x0 ys
+
+/-- one position of the unrolled forward pass -/
+def forwardStep (f : Feedback α)
+    (st : Except Err (List (Tensor α) × List (Tensor α) × List (Option MaxIdx))) (il : Nat × InnerLayer α) :
+    Except Err (List (Tensor α) × List (Tensor α) × List (Option MaxIdx)) :=
+  match st with
+  | .error e => .error e
+  | .ok (un, act, mx) =>
+    match act.getLast? with
+    | none => .error .index
+    | some x0 =>
+      match skipped f act il.1 x0 with
+      | .error e => .error e
+      | .ok x =>
+        if il.2.inputs ≠ x.shape then .error .shape else
+        match il.2.forward x with
+        | .error e => .error e
+        | .ok (pre, post, m) => .ok (un ++ [pre], act ++ [post], mx ++ [m])
+
 /-- the unrolled forward pass; returns every pre-activation, every activation (the block input first,
     the — possibly skip-combined and flattened — block output last) and the max-pool indices -/
 def forwardAll (f : Feedback α) (input : Tensor α) :
     Except Err (List (Tensor α) × List (Tensor α) × List (Option MaxIdx)) :=
-  let step (st : Except Err (List (Tensor α) × List (Tensor α) × List (Option MaxIdx))) (il : Nat × InnerLayer α) :=
-    match st with
-    | .error e => .error e
-    | .ok (un, act, mx) =>
-      match act.getLast? with
-      | none => .error .index
-      | some x0 =>
-        let x : Except Err (Tensor α) :=
-          match Assoc.find? f.connect il.1 with
-          | none => .ok x0
-          | some srcs =>
-            match L.mapM' (fun i => L.get act i) srcs with
-            | .error e => .error e
-            | .ok ys => accumulateMany f.accumulation x0 ys
-        match x with
-        | .error e => .error e
-        | .ok x =>
-          if il.2.inputs ≠ x.shape then .error .shape else
-          match il.2.forward x with
-          | .error e => .error e
-          | .ok (pre, post, m) => .ok (un ++ [pre], act ++ [post], mx ++ [m])
-  match (List.zip (List.range f.layers.length) f.layers).foldl step (.ok ([], [input], [])) with
+  match (List.zip (List.range f.layers.length) f.layers).foldl (forwardStep f) (.ok ([], [input], [])) with
   | .error e => .error e
   | .ok (un, act, mx) =>
     match act.getLast?, un.head? with
     | some last0, some _ =>
       let act' := act.dropLast
-      let last : Except Err (Tensor α) :=
-        match Assoc.find? f.connect f.layers.length with
-        | none => .ok last0
-        | some srcs =>
-          match L.mapM' (fun i => L.get act' i) srcs with
-          | .error e => .error e
-          | .ok ys => accumulateMany f.accumulation last0 ys
-      match last with
+      match skipped f act' f.layers.length last0 with
       | .error e => .error e
       | .ok last =>
         let out : Except Err (Tensor α) := if f.flatten then last.flatten else .ok last
@@ -589,64 +589,86 @@ def extendRec (acc : Accumulation) (r : Recorded α) (f : Recorded α) : Except 
   | .max _, _ => .error .reject      -- "Maxpool indices are missing."
   | r, _ => .ok r
 
+/-- one run of the looped range on the previous output `cur`: bring it to the first layer's input
+    shape, add the range's original input when `inskips`, run the range; returns the range's
+    pre-activations, activations, recordings and its last activation -/
+def loopStep (range : List (Layer α)) (linInputs : Shape) (inskips : Bool) (actInto : Tensor α) (cur : Tensor α) :
+    Except Err (List (Tensor α) × List (Tensor α) × List (Recorded α) × Tensor α) :=
+  let cur1 : Except Err (Tensor α) :=
+    if cur.shape ≠ linInputs then Tensor.reshape cur linInputs else .ok cur
+  match cur1 with
+  | .error e => .error e
+  | .ok cur1 =>
+    let cur2 : Except Err (Tensor α) := if inskips then cur1.add actInto else .ok cur1
+    match cur2 with
+    | .error e => .error e
+    | .ok cur2 =>
+      match runRange range cur2 with
+      | .error e => .error e
+      | .ok (p, q, r) =>
+        match q.getLast? with
+        | some out => .ok (p, q, r, out)
+        | none => .error .index
+
+/-- `k` successive runs, each on the output of the previous one; the per-run recordings in order,
+    and the output of the last run -/
+def loopRuns {P Q R : Type} (step : Tensor α → Except Err (P × Q × R × Tensor α)) :
+    Nat → Tensor α → Except Err (List P × List Q × List R × Tensor α)
+  | 0, cur => .ok ([], [], [], cur)
+  | k + 1, cur =>
+    match step cur with
+    | .error e => .error e
+    | .ok (p, q, r, out) =>
+      match loopRuns step k out with
+      | .error e => .error e
+      | .ok (ps, qs, rs, fin) => .ok (p :: ps, q :: qs, r :: rs, fin)
+
+/-- how the recorded value `x` of a looped layer is combined with the values `ys` of the runs -/
+def loopCombine (acc : Accumulation) (x : Tensor α) (ys : List (Tensor α)) : Except Err (Tensor α) :=
+  match acc with
+  | .overwrite => match ys.getLast? with
+    | some y => .ok y
+    | none => .ok x          -- zero iterations: nothing is overwritten
+  | .mean => x.mean ys
+  | a => accumulateMany a x ys
+
+/-- merge the runs into the trace at range offset `idx` (layer `j`) -/
+def loopMerge (n : Network α) (fpres fposts : List (List (Tensor α))) (frecs : List (List (Recorded α)))
+    (st : Except Err (Trace α)) (ij : Nat × Nat) : Except Err (Trace α) :=
+  match st with
+  | .error e => .error e
+  | .ok (t : Trace α) =>
+    let idx := ij.1
+    let j := ij.2
+    match L.mapM' (fun (x : List (Tensor α)) => L.get x idx) fpres,
+          L.mapM' (fun (x : List (Tensor α)) => L.get x idx) fposts,
+          L.mapM' (fun (x : List (Recorded α)) => L.get x idx) frecs,
+          L.get t.pre j, L.get t.act (j + 1), L.get t.recs j with
+    | .ok ps, .ok qs, .ok rs, .ok pj, .ok aj, .ok rj =>
+      match loopCombine n.loopaccumulation pj ps, loopCombine n.loopaccumulation aj qs,
+            rs.foldl (fun (r : Except Err (Recorded α)) f => match r with
+              | .ok r => extendRec n.loopaccumulation r f
+              | .error e => .error e) (.ok rj) with
+      | .ok pj', .ok aj', .ok rj' =>
+        .ok { pre := L.modAt (fun _ => pj') t.pre j, act := L.modAt (fun _ => aj') t.act (j + 1),
+              recs := L.modAt (fun _ => rj') t.recs j }
+      | .error e, _, _ => .error e
+      | _, .error e, _ => .error e
+      | _, _, .error e => .error e
+    | _, _, _, _, _, _ => .error .index
+
 /-- the loop-connection block of `Network::forward` after layer `i` -/
 def applyLoopback (n : Network α) (i : Nat) (into iterations : Nat) (inskips : Bool) (t : Trace α) : Except Err (Trace α) :=
   match t.act.getLast?, L.get n.layers into, L.get n.layers i, L.get t.act into with
-  | some last, .ok lin, .ok lout, .ok actInto =>
+  | some last, .ok lin, .ok _, .ok actInto =>
     let range := (n.layers.drop into).take (i + 1 - into)
     -- run the sub-network `iterations` times, each time on the previous output
-    let runs := (List.range iterations).foldl (fun st _ =>
-      match st with
-      | .error e => .error e
-      | .ok (fpres, fposts, frecs, cur) =>
-        let cur1 : Except Err (Tensor α) :=
-          if cur.shape ≠ lin.inputs then Tensor.reshape cur lin.inputs else .ok cur
-        match cur1 with
-        | .error e => .error e
-        | .ok cur1 =>
-          let cur2 : Except Err (Tensor α) := if inskips then cur1.add actInto else .ok cur1
-          match cur2 with
-          | .error e => .error e
-          | .ok cur2 =>
-            match runRange range cur2 with
-            | .error e => .error e
-            | .ok (p, q, r) =>
-              match q.getLast? with
-              | some out => .ok (fpres ++ [p], fposts ++ [q], frecs ++ [r], out)
-              | none => .error .index)
-      (.ok ([], [], [], last) : Except Err (List (List (Tensor α)) × List (List (Tensor α)) × List (List (Recorded α)) × Tensor α))
-    match runs with
+    match loopRuns (loopStep range lin.inputs inskips actInto) iterations last with
     | .error e => .error e
     | .ok (fpres, fposts, frecs, _) =>
       -- combine per layer of the range
-      (List.zip (List.range (i + 1 - into)) (List.range (i + 1 - into) |>.map (· + into))).foldl (fun st ij =>
-        match st with
-        | .error e => .error e
-        | .ok (t : Trace α) =>
-          let idx := ij.1
-          let j := ij.2
-          match L.mapM' (fun (x : List (Tensor α)) => L.get x idx) fpres,
-                L.mapM' (fun (x : List (Tensor α)) => L.get x idx) fposts,
-                L.mapM' (fun (x : List (Recorded α)) => L.get x idx) frecs,
-                L.get t.pre j, L.get t.act (j + 1), L.get t.recs j with
-          | .ok ps, .ok qs, .ok rs, .ok pj, .ok aj, .ok rj =>
-            let comb (x : Tensor α) (ys : List (Tensor α)) : Except Err (Tensor α) :=
-              match n.loopaccumulation with
-              | .overwrite => match ys.getLast? with
-                | some y => .ok y
-                | none => .ok x          -- zero iterations: nothing is overwritten
-              | .mean => x.mean ys
-              | a => accumulateMany a x ys
-            match comb pj ps, comb aj qs, rs.foldl (fun (r : Except Err (Recorded α)) f => match r with
-                | .ok r => extendRec n.loopaccumulation r f
-                | .error e => .error e) (.ok rj) with
-            | .ok pj', .ok aj', .ok rj' =>
-              .ok { pre := L.modAt (fun _ => pj') t.pre j, act := L.modAt (fun _ => aj') t.act (j + 1),
-                    recs := L.modAt (fun _ => rj') t.recs j }
-            | .error e, _, _ => .error e
-            | _, .error e, _ => .error e
-            | _, _, .error e => .error e
-          | _, _, _, _, _, _ => .error .index) (.ok t)
+      (List.zip (List.range (i + 1 - into)) (List.range (i + 1 - into) |>.map (· + into))).foldl
+        (loopMerge n fpres fposts frecs) (.ok t)
   | _, _, _, _ => .error .index
 
 /-- the input layer `i` actually processes: the previous layer's output (`act[i]`) combined with the
@@ -711,11 +733,13 @@ def insertSorted (x : Nat) : List Nat → List Nat
 
 /-- `{to: from}` inverted to `{from: [to, …]}` with the targets of every source sorted ascending
     (after the repair of D12 the result no longer depends on `HashMap` iteration order) -/
+def invertStep (m : List (Nat × List Nat)) (e : Nat × Nat) : List (Nat × List Nat) :=
+  match Assoc.find? m e.2 with
+  | some ts => Assoc.insert m e.2 (insertSorted e.1 ts)
+  | none => Assoc.insert m e.2 [e.1]
+
 def invertSkips (c : List (Nat × Nat)) : List (Nat × List Nat) :=
-  c.foldl (fun m e =>
-    match Assoc.find? m e.2 with
-    | some ts => Assoc.insert m e.2 (insertSorted e.1 ts)
-    | none => Assoc.insert m e.2 [e.1]) []
+  c.foldl invertStep []
 
 /-- `Network::backward` → per layer (last first) weight and bias gradients, plus the chain of
     gradients handed to the preceding layer (`gradients` in Rust: the objective gradient first).
